@@ -59,6 +59,9 @@ func checkRoundTrip(in []byte, root ast.Vertex) {
 				p, n := ch.list[k-1], ch.list[k+1]
 				if len(p) > 0 && len(n) > 0 {
 					what += " between " + byteClass(p[len(p)-1]) + " and " + byteClass(n[0])
+					if po := SliceOff(in, p); po >= 0 {
+						what += " after " + ownerName(root, in, po, len(p))
+					}
 				}
 			}
 		}
